@@ -6,6 +6,9 @@
 (* writes), which the harness recomputes from the real addresses.          *)
 EXTENDS PMC
 VARIABLE act
+CONSTANT LazyCtrl   \* TRUE: the control side takes a completion only when another one is stalled behind it
+                    \* (or at the very end) - back-pressure on the completion path with requests queued behind
+AllReported == NumIssued = MaxMig /\ \A h \in GPUs : Len(done[h]) = Len(issued[h])
 ScenFrames == [g \in GPUs |-> {0, 8, 16}]
 
 SInit == Init /\ act = [a |-> "Init"]
@@ -23,13 +26,13 @@ SNext ==
        \/ (writeQ[g] # <<>> /\ SendWrite(g, 1, WriteId(g, 1))) /\ Aw("SendWrite", g)
        \/ SendRead(g, 1) /\ Aw("SendRead", g)
        \/ SendPullRsp(g, 1) /\ Aw("SendPullRsp", g)
-       \/ TakeComplete(g) /\ act' = [a |-> "TakeComplete", g |-> g]
+       \/ (LazyCtrl => (toCtrl[g] # <<>> \/ AllReported)) /\ TakeComplete(g) /\ act' = [a |-> "TakeComplete", g |-> g]
        \/ NetTake(g) /\ act' = [a |-> "NetTake", g |-> g]
        \/ MemTake(g) /\ act' = [a |-> "MemTake", g |-> g]
        \/ \E q \in memPend[g] : MemRsp(g, q) /\ act' = [a |-> "MemRsp", g |-> g, id |-> q.id]
   \/ \E m \in net : NetDeliver(m) /\ act' = [a |-> "NetDeliver", k |-> m.k, id |-> m.id]
   \/ /\ NumIssued < MaxMig /\ (Serial => ~Outstanding)
-     /\ \E g \in GPUs, o \in GPUs, n \in 1..FrameChunks :
+     /\ \E g \in Requesters, o \in GPUs, n \in 1..FrameChunks :
           /\ o # g
           /\ \E sb \in MCFrames[o], db \in MCFrames[g] :
                /\ Stable(o, sb) /\ Fresh(g, db)
